@@ -7,7 +7,7 @@ import oracles
 
 SAFE = ["Model/Exec.v", "Model/ExecInv.v", "Proofs/ExecSafe.v", "Proofs/ExecCor.v"]
 LIVE = SAFE + ["Proofs/ExecLive.v", "Proofs/ExecMeasure.v", "Proofs/ExecLiveCor.v",
-               "Model/StepExec.v", "Model/DepExec.v", "Model/LiveSpec.v", "Proofs/DepSafe.v", "Proofs/DepLive.v", "Proofs/DepLiveCor.v",
+               "Model/StepExec.v", "Model/DepExec.v", "Model/LiveSpec.v", "Proofs/DepSafe.v", "Proofs/DepLive.v", "Proofs/DepLiveStep.v", "Proofs/DepLiveCor.v",
                "Proofs/StepSafe.v", "Proofs/StepLive.v", "Proofs/StepLiveCor.v"]
 
 TABLE = {
@@ -15,7 +15,7 @@ TABLE = {
     "C02": dict(kinds=["block", "step", "dep", "cblock", "cstep", "ublock"], oracle=oracles.c02, cone=LIVE, n=(70, 700)),
     "C03": dict(kinds=["dep"], oracle=oracles.c03,
                 cone=["Model/Exec.v", "Model/ExecInv.v", "Model/StepExec.v", "Model/DepExec.v", "Proofs/ExecLive.v", "Proofs/DepSafe.v",
-                      "Model/Traverse.v", "Proofs/TraverseProofs.v", "Model/LiveSpec.v", "Proofs/DepLive.v", "Proofs/DepLiveCor.v"], n=(180, 1500)),
+                      "Model/Traverse.v", "Proofs/TraverseProofs.v", "Model/LiveSpec.v", "Proofs/StepSafe.v", "Proofs/StepLive.v", "Proofs/DepLive.v", "Proofs/DepLiveStep.v", "Proofs/DepLiveCor.v"], n=(180, 1500)),
     "C04": dict(kinds=["dep", "step", "block"], oracle=oracles.c04,
                 cone=["Model/Exec.v", "Model/ExecInv.v", "Model/StepExec.v", "Model/DepExec.v", "Model/Worker.v", "Proofs/ExecLive.v",
                       "Proofs/DepSafe.v", "Proofs/C04Proofs.v"], n=(70, 700)),
